@@ -7,45 +7,45 @@ E1 = "explicit-state model checking of the implementation: breadth-first enumera
 E2 = "bounded-exhaustive enumeration (small-scope model checking) of the input space, each input executed on the real code and decided against an exact reference"
 
 CHECKS = {
- "C01": (E1, "6/C01", "all histories over a colliding alphabet of moves, arcs, retract/wipe, @-commands and late region additions; physical effect of every forwarded command decided on a reference printer",
-         "reference printer is Marlin-like by construction; alphabet-relative (named points, one retraction length); arcs in absolute mm only"),
- "C03": (E1, "6/C03", "all histories with Z-changing entries, four mode/unit combinations, exit by move or by disable; A (filtered) vs B (unfiltered) reference printers compared after every move that ends outside",
-         "tolerance 1e-6 mm; relative/inch scenarios are depth-bounded because rounding makes states path-dependent"),
- "C04": (E1, "6/C04", "all absolute-extrusion histories with matched cycles to fix-point; extruder register and per-move pushed filament compared between printers A and B",
-         "premises of C04 (absolute E, matched equal-length cycles) are enabledness rules of the menu"),
- "C05": (E1, "6/C05", "reachable-state exploration to fix-point of the retraction machine composed with every episode placement; depth bounds and parity decided on printers A and B",
-         "E-only and firmware cycles are explored separately (never mixed), as the property states"),
- "C02": (E1, "6/C02", "all histories under the three 'never touches an enabled region' premises x both G90-E settings; every hook result must be None or exactly [cmd]",
-         "arcs must stay >= 2 mm clear; G92 X/Y/Z is exercised in a dedicated scenario (known finding D16)"),
- "C09": (E2, "6/C09", "all command sequences up to length 2 (3 thorough) over a ~580-command grammar x region sets x in/out of an episode x both entry points; no exception, protocol-conformant result shape",
-         "arc radii capped at 1000 (larger radii are non-termination, not exceptions)"),
- "C11": (E1, "6/C11", "all interleavings of lifecycle events, settings updates, the three hooks and an API add, to fix-point, against a 40-line lifecycle model; inactive hooks must leave the canonical state unchanged",
-         "interleaving of whole hook/event calls; no preemption inside a call"),
- "C12": (E1 + "; " + E2, "6/C12", "request histories in all four (active x mayShrink) modes to fix-point plus every ordered pair of a geometry catalogue updated while printing, decided by exact rational containment and sample points",
-         "containment verdicts within 1e-9 of an irrational touch are accepted either way"),
- "C13": (E1, "6/C13", "all API request histories x users x events to fix-point (list <= 3) against a reference registry: status codes, unchanged state on rejection, exactly one notification per change with the current list",
-         "uuid4 replaced by a per-world counter"),
- "C15": (E1, "6/C15", "all programs ending inside/outside an episode x all script-hook invocation sequences x end events, to fix-point; contributed prefix executed on reference printer A and compared with B",
-         "prefix lines interpreted as OctoPrint would send them"),
- "C16": (E2, "6/C16", "complete grid of I/J arcs (start x radius x start angle x sweep x direction) and R-form chords through planArc/computeArcCenterOffsets, plus the same arcs end-to-end through the hook against probe regions",
-         "absolute mm; R-form centre defect D2 is a known finding attributed by exact signature"),
- "C17": (E2, "6/C17", "complete grid: 629 rectangles (all corner orders, degenerate) x 76 discs x 1/4-lattice points, and all ordered region pairs of all four type combinations, against exact rational geometry",
-         "verdicts that differ only within 1e-12 of a disc border are not reported"),
- "C18": (E2, "6/C18", "every string over a 16-symbol alphabet up to length 5 (6 thorough) and every concatenation of <= 3 lines from a 40-line catalogue: lossless, stable normalisation, self-validating checksum",
-         "fresh parser per input"),
- "C19": (E2, "6/C19", "every word sequence up to 2 (3 thorough) words x spellings x spacing: parser pairs vs independent reader, and G1/G92/G28/G2 through the real hook vs reference printer",
-         "numbers without exponent; G92 X/Y/Z value read back sign-agnostically (D16)"),
- "C06": (E1, "6/C06", "all histories over deferred codes of every mode, scripts configured through the real settings, and the four ways an episode ends, to fix-point; every command emitted at an episode boundary must be explained by the reference accounting",
+ "C01": (E1, "6/C01, 11-13", "all histories (fix-point in absolute mm; depth-bounded with relative/inch) over moves to points inside/outside/on the borders, the bed origin, single-axis and Z-only moves, retract/recover/wipes, clear/crossing/entering/printing/helical arcs, @-commands, regions added mid-print, scripts; every forwarded command is executed on an exact reference printer and judged physically; a directed probe turns a drifted tracked position into a behavioural witness",
+         "reference printer is Marlin-like by construction; alphabet-relative; relative-mode arcs are known finding D14 (dedicated scenario)"),
+ "C02": (E1, "6/C02, 11-13", "all histories under the three 'never touches an enabled region' premises x both G90-E settings, incl. the origin, single-axis moves with disable/enable, a second print after a print left in another mode; every hook result must mean 'forward this command unchanged'",
+         "arcs must stay >= 2 mm clear; G92 X/Y/Z only in the dedicated scenario (known finding D16)"),
+ "C03": (E1, "6/C03, 11-13", "all histories with Z-changing entries, arcs, four mode/unit combinations (also switched inside an episode), exit by move or by disable; filtered (A) vs unfiltered (B) exact reference printers compared after every move that ends outside; Z order of the re-positioning travel",
+         "tolerance 1e-6 mm; relative/inch scenarios depth-bounded"),
+ "C04": (E1, "6/C04, 11-13", "all absolute-extrusion histories with matched cycles (E-only, firmware, printing arcs, inch, non-zero G92 E) to fix-point; extruder register, per-move pushed filament and a filament-conservation account compared between printers A and B",
+         "premises of C04 are enabledness rules of the menu"),
+ "C05": (E1, "6/C05, 11-13", "reachable-state exploration to fix-point of the retraction machine composed with every episode placement (E-only, firmware incl. compact spelling, inch); depth bounds, parity, regenerated parameters and over-recovery decided on printers A and B",
+         "E-only and firmware cycles explored separately, as the property states; depth tolerance 1e-4 mm"),
+ "C06": (E1, "6/C06, 11-13", "all histories over deferred codes of every mode (zero / value-less / repeated parameters), scripts configured through the real settings (incl. non-G/M/T lines), code list reconfigured between episodes, region deleted mid-episode, and the four ways an episode ends, to fix-point; every command emitted at an episode boundary must be explained by the reference accounting",
          "scripts use codes that are not themselves deferred; merged commands compared by RS274 reading"),
- "C07": (E1 + "; " + E2, "6/C07", "depth-bounded value-stress histories (tiny/huge values, relative round-off, inch) with a strict grammar on every synthesised command and exponent-blind reference printers, plus a decade x mantissa grid through every formatting site",
+ "C07": (E1 + "; " + E2, "6/C07, 11-13", "depth-bounded value-stress histories (tiny/huge values, relative round-off, inch) with a firmware-level grammar on every synthesised command and exponent-blind reference printers, plus a decade x mantissa grid (incl. 0) through every formatting site",
          "depth-bounded by design (values drift); grid 1e-12..1e17"),
- "C08": (E1, "6/C08", "product exploration of two real plugins on the same abstract path under two encodings (inch / relative / translated; G92 re-basing in a dedicated known-finding scenario), switch at every position; decision class, episode flag and physical position compared per step",
-         "margin >= 0.5 mm from borders; position tolerance 1e-4 mm"),
- "C10": (E1, "6/C10", "every state reachable within the depth bound is followed by print-started on a copy and compared with a freshly initialised plugin: canonical state equality plus all probe programs up to length 2 (3 thorough) giving identical hook outputs",
-         "probes start with G28; 12 probe commands"),
- "C14": (E1, "6/C14", "all histories with enable/disable/unmatched/streaming @-commands at arbitrary points under default and custom patterns, to fix-point; reference flag from the configured patterns; C01/C03 obligations after re-enabling",
-         "sent commands are re-fed through the queuing hook as MachineCom does; disable inside an episode in G91 is known finding D17 (dedicated scenario)"),
- "C20": (E2, "6/C20", "every file of up to 2 lines (3 thorough; 3 for one live state in quick) over a 24-line alphabet x EOL x terminator x 4 live states, against a twin plugin driven through the live hooks",
+ "C08": (E1, "6/C08, 11-13", "product exploration of two real plugins on the same abstract path under two encodings (inch / relative / translated), switch at every position, incl. the origin, single-axis moves and homing (G28 X Y, G28 W); decision class, episode flag and physical position compared per step",
+         "margin >= 0.5 mm from borders; position tolerance 1e-4 mm; G92 re-basing is known finding D16 (dedicated scenario)"),
+ "C09": (E2, "6/C09, 11-13", "all command sequences up to length 2 (3 thorough) over a ~700-command grammar x region sets x {outside, inside an episode, region drawn around the nozzle} x both entry points; no exception, protocol-conformant result shape",
+         "arc radii capped at 1000"),
+ "C10": (E1, "6/C10, 11-13", "every state reachable within the depth bound (moves, retractions, deferred codes, modes, @-commands, API and settings changes, aborted prints) is followed by print-started on a copy and compared behaviourally with a freshly initialised plugin: all probe programs up to length 2 (3 thorough; one deeper if the states differ) must give identical hook outputs",
+         "probes start with G28; 12 probe commands + the afterPrintDone hook"),
+ "C11": (E1, "6/C11, 11-13", "all interleavings of lifecycle events, settings updates, the three hooks and an API add, to fix-point, against a lifecycle model; inactive hooks must not alter or track; while active, decisions follow the current region list",
+         "interleaving of whole hook/event calls"),
+ "C12": (E1 + "; " + E2, "6/C12, 11-13", "request histories in all four (active x mayShrink) modes to fix-point plus every ordered pair of a geometry catalogue updated while printing, decided by exact rational containment and sample points",
+         "containment verdicts within 1e-9 of an irrational touch are accepted either way"),
+ "C13": (E1, "6/C13, 11-13", "all API request histories x users x events to fix-point (list <= 3, incl. coordinates with many decimals) against a reference registry: status codes, unchanged list on rejection, exactly one notification per change carrying the current list, GET",
+         "uuid4 replaced by a per-world counter"),
+ "C14": (E1, "6/C14, 11-13", "all histories with enable/disable/unmatched/streaming @-commands at arbitrary points under default, custom, empty-matching and case-sensitive patterns, with arcs, consecutive prints and relative moves; reference flag from the configured patterns; C01/C03 obligations after re-enabling",
+         "sent commands are re-fed through the queuing hook as MachineCom does; disable inside an episode in G91 is known finding D17"),
+ "C15": (E1, "6/C15, 11-13", "all programs ending inside/outside an episode x all script-hook invocation sequences (near-miss names, other types) x end events, partial homing, region deleted mid-episode, to fix-point; the contribution is decoded as OctoPrint does, executed on printer A and compared with B",
+         "prefix lines interpreted as OctoPrint would send them"),
+ "C16": (E2, "6/C16, 11-13", "complete grid of I/J arcs (slicer-style offsets; start x radius x start angle x sweep x direction) and R-form chords through planArc/computeArcCenterOffsets, incl. segment count vs arc length, plus end-to-end runs through the hook (12- and 3-decimal coordinates, omitted zero words) against probe regions",
+         "absolute mm; R-form centre defect D2 is a known finding attributed by exact signature"),
+ "C17": (E2, "6/C17, 11-13", "complete grid: 629 rectangles (all corner orders, degenerate) x 76 discs x 1/4-lattice points, and all ordered region pairs of all four type combinations, against exact rational geometry",
+         "verdicts that differ only within 1e-12 of a disc border are not reported"),
+ "C18": (E2, "6/C18, 11-13", "every string over a 16-symbol alphabet up to length 5 (6 thorough) and every concatenation of <= 3 lines from a 40-line catalogue: lossless, stable normalisation (also re-parsed by the same instance), self-validating checksum checked against an independent XOR",
+         "fresh parser per input"),
+ "C19": (E2, "6/C19, 11-13", "every word sequence up to 2 (3 thorough) words over 7 letters x 9 spellings x spacing: parser pairs vs independent reader, and G1/G92/G28/G2 through the real hook vs reference printer",
+         "numbers without exponent; G92 X/Y/Z value read back sign-agnostically (D16)"),
+ "C20": (E2, "6/C20, 11-13", "every file of up to 2 lines (3 thorough; 3 for one live state in quick) over a 32-line alphabet x EOL x terminator x 5 live states, against a twin plugin driven through the live hooks; results judged by meaning",
          "process_line(str) is the observation point; canonical upper-case command spellings"),
 }
 PENDING = ["C02", "C06", "C07", "C08", "C09", "C10", "C11", "C12", "C13", "C14", "C15", "C16", "C17", "C18", "C19", "C20"]
